@@ -46,12 +46,18 @@ package utils
 //@   safetytags C17
 //@   safety
 //@   requires b != nil && b.ctx != nil
+//@   site block * EXITS: [C17] requires waits(ctxdone(b.ctx))
+//@ func (*Broker).start$1
+//@   tags C17
+//@   site block * EXITS: [C17] requires waits(ctxdone(b.ctx))
 
 //@ func (*Broker).start
 //@   tags C17
 //@   safetytags C17
 //@   safety
 //@   requires b != nil && b.ctx != nil
+//@   site block * EXITS: [C17] requires waits(ctxdone(b.ctx))
+//@   ensures ALLCLOSED: [C17] forall ch int :: (ch in subs) ==> closed(ch)
 //@   ghostflag delivering set call:start$1 clear call:Wait
 //@   site call close QUIESCENT: [C17] requires !flag("delivering")
 //@   loop for
@@ -60,5 +66,17 @@ package utils
 //@   loop range subs
 //@     invariant OPEN2: [C17] forall ch int :: (ch in subs) && !visited(ch) ==> ch != nil && !closed(ch)
 //@     invariant IDLE2: [C17] !flag("delivering")
+//@     invariant CLOSED2: [C17] forall ch int :: visited(ch) ==> closed(ch)
 //@   loop range subs
 //@     invariant OPEN3: [C17] forall ch int :: (ch in subs) ==> ch != nil && !closed(ch)
+
+//@ func (*Broker).Unsubscribe
+//@   tags C17
+//@   requires b != nil && b.ctx != nil
+//@   modifies nothing
+//@   site block * EXITS: [C17] requires waits(ctxdone(b.ctx))
+//@ func (*Broker).Publish
+//@   tags C17
+//@   requires b != nil && b.ctx != nil
+//@   modifies nothing
+//@   site block * EXITS: [C17] requires waits(ctxdone(b.ctx))
